@@ -282,7 +282,27 @@ def gen_probe_program(rng, nprobes, pool=None):
     chosen = rng.sample(pool, min(nprobes, len(pool)))
     for lab, code in chosen:
         src.append("echo \"%s\\t\"; %s echo \"\\n\";" % (lab, code))
-    return "\n".join(src) + "\n", [lab for lab, _ in chosen]
+    ks, vs = keys[:nk], vals
+    first = {}
+    for k, v in zip(ks, vs):
+        first.setdefault(v, k)
+    # what insertion order demands of the enumeration probes (json text)
+    expect = {
+        "foreach_assoc": json.dumps(ks, separators=(",", ":")),
+        "array_keys": json.dumps(ks, separators=(",", ":")),
+        "foreach_obj": json.dumps(ks, separators=(",", ":")),
+        "array_values": json.dumps(vs, separators=(",", ":")),
+        "array_merge": json.dumps(ks + ["zz"], separators=(",", ":")),
+        "array_replace": json.dumps(ks + ["zz"], separators=(",", ":")),
+        "array_filter": json.dumps([k for k, v in zip(ks, vs) if v != 0], separators=(",", ":")),
+        "array_unique": json.dumps([k for k, v in zip(ks, vs) if first[v] == k], separators=(",", ":")),
+        "iterator_to_array": json.dumps(ks, separators=(",", ":")),
+        "array_slice": json.dumps(vs[1:3], separators=(",", ":")),
+        "declared_obj": json.dumps(["pa", "pb", "pc", "pd", "pe", "pf"], separators=(",", ":")),
+        "reflect_methods": json.dumps(["ma", "mb", "mc", "md", "me"], separators=(",", ":")),
+        "array_walk": None,
+    }
+    return "\n".join(src) + "\n", [lab for lab, _ in chosen], {k: v for k, v in expect.items() if v is not None}
 
 
 # ---------------------------------------------------------------------------- (3) A;B pairs
@@ -697,8 +717,8 @@ def main(ck):
         probe_cases = [replay]
     elif replay is None:
         for _ in range(nprog):
-            src, labs = gen_probe_program(rng, 18)
-            probe_cases.append({"kind": "probe", "src": src, "labels": labs})
+            src, labs, exp = gen_probe_program(rng, 18)
+            probe_cases.append({"kind": "probe", "src": src, "labels": labs, "expect": exp})
     nproc = 3 if quick else 8
     probes_seen = {}
     if probe_cases:
@@ -728,6 +748,11 @@ def main(ck):
                 evaluations += len(runs)
                 for lab, vs in variants.items():
                     probes_seen[lab] = probes_seen.get(lab, 0) + 1
+                    want = (c.get("expect") or {}).get(lab)
+                    if len(vs) == 1 and want is not None and json.loads(next(iter(vs))) != [want]:
+                        ck.violation("order:%s" % lab, {"case": {"kind": "probe", "src": c["src"], "labels": [lab], "expect": {lab: want}},
+                                                        "impl_out": sorted(vs)[:2], "want": want,
+                                                        "clause": "entries are enumerated in insertion order (probe %s)" % lab})
                     if len(vs) > 1:
                         ck.violation("nondet:%s" % lab, {"case": {"kind": "probe", "src": c["src"], "labels": [lab] if not lab.startswith("@") else c["labels"]},
                                                          "impl_out": sorted(vs)[:4],
@@ -784,8 +809,8 @@ def main(ck):
         # (B must be deterministic on its own: probes with a recorded nondet finding are left out)
         det = [p for p in PROBES if ("nondet:" + p[0]) not in ck.known]
         for _ in range(6 if quick else 60):
-            a, _l = gen_probe_program(rng, 10)
-            b, _l = gen_probe_program(rng, 10, det)
+            a, _l, _e = gen_probe_program(rng, 10)
+            b, _l, _e = gen_probe_program(rng, 10, det)
             pair_cases.append({"kind": "pair", "pl": "probe-program", "ol": "probe-program", "wcell": "-", "rcell": "-", "a": a, "b": b})
     if pair_cases:
         outs, rc, err = run_engine(binary, [{"kind": "pair", "a": c["a"], "b": c["b"]} for c in pair_cases], cwd=ck.bdir)
